@@ -9,6 +9,7 @@ import Driver.Flat
 import Driver.Derived
 import Driver.Xen
 import Driver.Sys
+import Driver.Dump
 
 def main (args : List String) : IO UInt32 := do
   let stdin ← IO.getStdin
@@ -24,4 +25,5 @@ def main (args : List String) : IO UInt32 := do
   | ["derived"] => Driver.Derived.run stdin; return 0
   | ["xen"] => Driver.Xen.run stdin; return 0
   | ["sys"] => Driver.Sys.run stdin; return 0
+  | ["dump"] => Driver.Dump.run stdin; return 0
   | _ => IO.eprintln "usage: kdfdrv <stream>"; return 2
